@@ -134,6 +134,14 @@ func (s *walletSessionManager) ownedByOther(authToken, userID string) bool {
 	return ok && session.user != userID
 }
 
+func wrapSessionError(err error) error {
+	if errors.Is(err, ErrInvalidAuthToken) {
+		return ErrWalletLocked
+	}
+
+	return fmt.Errorf("failed to get session: %w", err)
+}
+
 // ownedBy tells whether given auth token belongs to a live session of the given user.
 // The session is only looked up, its expiry is not extended.
 func (s *walletSessionManager) ownedBy(authToken, userID string) bool {
@@ -145,14 +153,6 @@ func (s *walletSessionManager) ownedBy(authToken, userID string) bool {
 	session, ok := sess.(*Session)
 
 	return ok && session.user == userID
-}
-
-func wrapSessionError(err error) error {
-	if errors.Is(err, ErrInvalidAuthToken) {
-		return ErrWalletLocked
-	}
-
-	return fmt.Errorf("failed to get session: %w", err)
 }
 
 func (s *walletSessionManager) closeSession(userID string) bool {
